@@ -31,7 +31,16 @@ def run(ctx):
     p4(ctx, F)
     p5(ctx, F)
     p6(ctx, F)
-    ctx.assume("A-HASH: equal 64-bit hash implies equal position (C05 gives only a minimum-distance bound)")
+    from . import p04
+    before, nv = len(ctx.instances), len(ctx.violations)
+    p04.rule_k4(ctx, F)
+    for i in ctx.instances[before:]:
+        i["rule"] = "C06.P7(" + i["rule"] + ")"
+    for v in ctx.violations[nv:]:
+        v["rule"] = "C06.P7(" + v["rule"] + ")"
+        v["key"] = "C06.P7|" + v["key"]
+    ctx.assume("A-HASH: equal 64-bit hash implies equal position (C05 gives only a minimum-distance bound; the structural part - "
+               "every feature is keyed - is checked as P7)")
 
 
 def returned_move_components(fn, F, pv):
